@@ -58,7 +58,9 @@ def cases_beat(r):
         ("beat.f_measure", (x, y), kw(r, tasks.BEAT_PARAMS["f_measure"]), 1.0),
         ("beat.cemgil", (x, y), kw(r, {"cemgil_sigma": [0.04, 1 / 32]}), [1.0, 1.0]),
         ("beat.goto", (x, y), kw(r, tasks.BEAT_PARAMS["goto"]), 1.0),
-        ("beat.p_score", (x, y), kw(r, tasks.BEAT_PARAMS["p_score"]), 1.0),
+        # (windows of half a beat and more make the score of a copy exceed 1: the
+        # statement's "well-separated beats" condition)
+        ("beat.p_score", (x, y), kw(r, {"p_score_threshold": [0.2, 0.25, 0.125]}), 1.0),
         ("beat.continuity", (x, y), kw(r, tasks.BEAT_PARAMS["continuity"]), [1.0] * 4),
         ("beat.information_gain", (x, y), kw(r, {"bins": [41, 21, 5, 11]}), 1.0),
         ("beat.evaluate", (x, y), {}, {
